@@ -329,6 +329,23 @@ CHECKS = {
     },
 }
 
+# Engine self-tests (not a property; run with ./selftest.sh): small concurrent
+# programs with a schedule-independent outcome, explored under the scheduler and
+# re-run natively by the agreement stage.
+CHECKS["SELFTEST"] = {
+    "explanation": "engine self-tests of the channel/select/sync models",
+    "assumptions": [],
+    "groups": [
+        {"pkg": "./server/telemetry", "overlay": "telemetry", "pkgname": "telemetry",
+         "harnesses": [
+             {"name": "VerifSelfSelectRendezvous", "params": {"preemptions": 2}, "covers": ["done"]},
+             {"name": "VerifSelfSelectSenders", "params": {"preemptions": 2}, "covers": ["done"]},
+             {"name": "VerifSelfBuffered", "params": {"preemptions": 2}, "covers": ["done"]},
+             {"name": "VerifSelfMutexCounter", "params": {"preemptions": 2}, "covers": ["done"]},
+         ]},
+    ],
+}
+
 TECH = "bounded symbolic execution of the real Go code (go/ssa) with z3; counterexamples replayed natively"
 
 META = {
